@@ -741,11 +741,25 @@ def split_inline_box(context, box, position_x, max_x, bottom_space, skip_stack,
             # TODO: we should take care of children added into absolute_boxes,
             # fixed_boxes and other lists.
             available_width -= end_spacing
+            whole_child = new_child
             new_child, resume_at, preserved, first, last, new_float_widths = (
                 split_inline_level(
                     context, child, position_x, available_width, bottom_space,
                     skip_stack, containing_block, absolute_boxes, fixed_boxes,
                     line_placeholders, child_waiting_floats, line_children))
+            if resume_at is not None and whole_child is not None:
+                # The end spacing does not fit after the child, but only the
+                # last line of the child is followed by the end spacing: break
+                # the child at its last possible breaking point.
+                broken_children = []
+                broken_resume_at = _break_waiting_children(
+                    context, containing_block, max_x, bottom_space,
+                    initial_skip_stack, absolute_boxes, fixed_boxes,
+                    line_placeholders, child_waiting_floats, line_children,
+                    broken_children, [(index, whole_child, child)])
+                if broken_resume_at and broken_children:
+                    (_, new_child, _), = broken_children
+                    resume_at = broken_resume_at[index]
 
         skip_stack = None
         if preserved:
